@@ -108,7 +108,11 @@ type ReplayOpts struct {
 	// Restart is the probability, per Commit, that the node is stopped and a new application instance is started on
 	// the same database (everything the old instance held in memory is gone; only committed state survives).
 	Restart float64
-	Rng     *rand.Rand
+	// Crash is the probability, per call inside a block (DeliverTx, EndBlock, Commit), that the node dies before that
+	// call: the open block is lost, a new instance opens the database at the last committed height and executes the
+	// block again from BeginBlock (at most one crash per block).
+	Crash float64
+	Rng   *rand.Rand
 }
 
 // Replay re-executes one recorded chain on a fresh application and returns the
@@ -127,7 +131,7 @@ func Replay(ops []TraceOp, o ReplayOpts) (out []TraceOp, perr error) {
 	db := dbm.NewMemDB()
 	a := app.NewJackalApp(log.NewNopLogger(), db, nil, true, map[int64]bool{}, home, 0,
 		enc, wasm.EnableAllProposals, app.EmptyBaseAppOptions{}, nil)
-	restarts := 0
+	restarts, crashes := 0, 0
 	freshInstance := false // the running instance was started at the previous Commit
 	defer func() {
 		if r := recover(); r != nil {
@@ -171,8 +175,33 @@ func Replay(ops []TraceOp, o ReplayOpts) (out []TraceOp, perr error) {
 	}
 	committedOnce := false
 	var lastHash []byte
-	for _, op := range ops {
+	beginIdx, beginTxi, crashedThisBlock := -1, 0, false
+	for i := 0; i < len(ops); i++ {
+		op := ops[i]
+		if o.Crash > 0 && o.Rng != nil && committedOnce && !crashedThisBlock && beginIdx >= 0 && (op.Op == "tx" || op.Op == "end" || op.Op == "commit") && o.Rng.Float64() < o.Crash {
+			// the node dies in the middle of the block: nothing of it was committed. A new instance opens the database at
+			// the last committed height and the block is executed again from its BeginBlock.
+			crashedThisBlock = true
+			crashes++
+			h2, err := os.MkdirTemp(home, "crash-")
+			if err != nil {
+				return nil, err
+			}
+			a = app.NewJackalApp(log.NewNopLogger(), db, nil, true, map[int64]bool{}, h2, 0,
+				enc, wasm.EnableAllProposals, app.EmptyBaseAppOptions{}, nil)
+			freshInstance = true
+			out = out[:beginIdx]
+			txi = beginTxi
+			i = beginIdx - 1
+			continue
+		}
 		r := TraceOp{Op: op.Op, Height: op.Height}
+		if op.Op == "begin" {
+			if beginIdx != len(out) {
+				crashedThisBlock = false
+			}
+			beginIdx, beginTxi = len(out), txi
+		}
 		switch op.Op {
 		case "init":
 			a.InitChain(abci.RequestInitChain{ChainId: ChainID, Time: time.Unix(0, op.TimeNs).UTC(), Validators: []abci.ValidatorUpdate{},
@@ -234,6 +263,8 @@ func Replay(ops []TraceOp, o ReplayOpts) (out []TraceOp, perr error) {
 		}
 		out = append(out, r)
 	}
+	// trailing pseudo-step (ignored by the step-by-step comparison): what this re-execution was put through
+	out = append(out, TraceOp{Op: "stats", Info: fmt.Sprintf("restarts=%d crashes=%d", restarts, crashes)})
 	return out, nil
 }
 
